@@ -11,17 +11,17 @@ import (
 
 // verifScriptLease is a lease driven by a script of symbolic service replies.
 type verifScriptLease struct {
-	id         string
-	ttl        time.Duration
-	renewedAt  time.Time
-	renews     int
+	id                string
+	ttl               time.Duration
+	renewedAt         time.Time
+	renews            int
 	renewAfterExpired int
-	expired    bool
-	closes     int
-	handoffCh  chan uint64
-	maxRenews  int
-	lastOutcome int
-	contAfterFail []time.Duration // (now - renewedAt) observed each time the loop went on after a failed renewal
+	expired           bool
+	closes            int
+	handoffCh         chan uint64
+	maxRenews         int
+	lastOutcome       int
+	contAfterFail     []time.Duration // (now - renewedAt) observed each time the loop went on after a failed renewal
 }
 
 func (l *verifScriptLease) ID() string           { return l.id }
